@@ -667,7 +667,24 @@ func init() {
 		return sc
 	}})
 	register(&Family{Name: "c12", Run: runLoop("C12"), Gen: func(seed uint64, tier string) *world.Scenario {
-		return genLoop("c12", seed, tier, loopOpts{kinds: []string{"hwmon", "hwmon", "file"}, directOnly: true, fullRange: true, horizonLo: 20, horizonHi: 50})
+		sc := genLoop("c12", seed, tier, loopOpts{kinds: []string{"hwmon", "hwmon", "file"}, directOnly: true, fullRange: true, horizonLo: 20, horizonHi: 50})
+		r := kernel.NewRand(seed, "c12.extra")
+		if r.Bool(0.5) {
+			// a ramp sweeps the request through 0..255, one or two units per cycle
+			sc.TempWin = 1
+			sc.TempPoll = sc.Tick
+			for i := range sc.Sensors {
+				n := int(sc.Horizon.D()-4*time.Second) / int(sc.Tick.D())
+				up := r.Bool(0.5)
+				p := world.TempProg{Kind: "ramp", Base: 19000, Delta: 62000/n + 1, Every: sc.Tick, Lo: 15000, Hi: 85000}
+				if !up {
+					p.Base, p.Delta = 81000, -(62000/n + 1)
+				}
+				sc.Sensors[i].Prog = p
+			}
+			sc.Variant = "ramp"
+		}
+		return sc
 	}})
 }
 
